@@ -210,3 +210,25 @@ func VerifC18Contrib() {
 	vrt.AssertKF("a reader mutating its result does not change later answers (sync contribution)", vConSame(r3, a), "C18-b", true)
 	vrt.Reach("end")
 }
+
+func init() { VerifHarnesses["VerifC06EmptyPlural"] = VerifC06EmptyPlural }
+
+// VerifC06EmptyPlural: a decided sync-contribution set in which one validator's data is the EMPTY plural list (the wire
+// decoder accepts the JSON list []; only a peer leader can produce it) next to another validator's ordinary contribution:
+// the store neither crashes nor loses the other validator's datum.
+func VerifC06EmptyPlural() {
+	dl := &vDeadliner{status: core.DeadlineScheduled, ch: make(chan core.Duty, 1)}
+	db := NewMemDB(dl)
+	ctx := context.Background()
+	c := vDrawCon("c")
+	err := db.Store(ctx, core.Duty{Slot: c.slot, Type: core.DutySyncContribution}, core.UnsignedDataSet{vPkA: core.SyncContributions{}, vPkB: c.data()})
+	vrt.Reach("stored")
+	if err == nil {
+		var croot eth2p0.Root
+		croot[0] = c.root
+		got, aerr := db.AwaitSyncContribution(ctx, c.slot, c.sub, croot)
+		vrt.Assert("the other validator's contribution is served", aerr == nil && vConSame(got, c))
+		vrt.Reach("served")
+	}
+	vrt.Reach("end")
+}
